@@ -5,6 +5,7 @@
 
 mod c11;
 mod c15;
+mod bldrun;
 mod c19;
 mod dump_grammar;
 mod itext;
